@@ -17,6 +17,7 @@ type Plan struct {
 	NCtx  int           `json:"nctx"`
 	Tasks [][]Op        `json:"tasks"`
 	Pre   []Op          `json:"pre,omitempty"` // executed sequentially before the tasks start (Arm, SetEnv)
+	Multi bool          `json:"multi,omitempty"` // every task constructs and uses a container of its own, inside the scheduled phase
 	Sched sched.Config  `json:"sched"`
 }
 
@@ -52,8 +53,16 @@ func RunPlan(e *Entry, p *Plan) *RunOut {
 	os.Setenv("VSIM_E0", "8080")
 	os.Setenv("VSIM_E1", "17")
 	os.Setenv("VSIM_E2", "3")
-	sess := NewSession(e, p.NCtx)
-	sess.Construct()
+	sessions := []*Session{NewSession(e, p.NCtx)}
+	if p.Multi {
+		sessions = nil
+		for range p.Tasks {
+			sessions = append(sessions, NewSession(e, p.NCtx))
+		}
+	} else {
+		sessions[0].Construct()
+	}
+	sess := sessions[0]
 	for i, op := range p.Pre {
 		sess.Exec(-1, i, op)
 	}
@@ -64,8 +73,14 @@ func RunPlan(e *Entry, p *Plan) *RunOut {
 		t := t
 		res[t] = make([]OpResult, len(p.Tasks[t]))
 		fns[t] = func() {
+			s := sess
+			if p.Multi {
+				s = sessions[t]
+				s.Construct() // under the scheduler: yields inside the generated constructor interleave
+				sched.Yield("probe.after-construct")
+			}
 			for i, op := range p.Tasks[t] {
-				res[t][i] = sess.Exec(t, i, op)
+				res[t][i] = s.Exec(t, i, op)
 				sched.Yield("probe.between-ops")
 			}
 		}
@@ -73,6 +88,9 @@ func RunPlan(e *Entry, p *Plan) *RunOut {
 	out := &RunOut{Reg: NewRegistry()}
 	out.Sched = sched.Run(p.Sched, fns)
 	if out.Sched.Outcome == "finished" {
+		for _, s := range sessions {
+			out.Reg.containers = append(out.Reg.containers, s.C)
+		}
 		for t := range res {
 			for i := range res[t] {
 				r := &res[t][i]
@@ -83,7 +101,11 @@ func RunPlan(e *Entry, p *Plan) *RunOut {
 			}
 		}
 		sort.SliceStable(out.Results, func(i, j int) bool { return out.Results[i].Invoke < out.Results[j].Invoke })
-		sess.Close()
+		for _, s := range sessions {
+			if s.C != nil {
+				s.Close()
+			}
+		}
 	}
 	LastRunDigest = shortHash(fmt.Sprintf("%v|%s|%d|%d|%s", out.Sched.Trace, out.Sched.Outcome, out.Sched.Steps, out.Sched.Blocks, historyDigestString(out.Results)))
 	if racePath != "" {
